@@ -125,7 +125,37 @@ def gen_sexa(seed, n, shard):
                         ok, F = tokenise(s, fancy)
                     except Exception as ex:
                         s, ok, F = "raised " + type(ex).__name__, 0, [ZF, ZF, ZF]
-                    yield {"k": "str", "x": val, "vs": vs, "v": fv, "ra": ra, "fancy": fancy, "nd": nd, "ok": ok, "F": F, "raw": s}
+                    yield {"k": "str", "x": val, "vs": vs, "v": fv, "ra": ra, "fancy": fancy, "nd": nd, "ok": ok, "F": F, "raw": s, "tight": 0}
+
+
+def gen_sexa_ties(seed, n, shard):
+    """small angles (below one degree / one hour: the decomposition is exact to ~2e-13 arcsec there) whose seconds lie a few
+    1e-11 arcsec either side of a rounding tie of the requested decimal: the printed value is the stored value rounded
+    ONCE at that decimal (judged with a slack of 2e-15 deg = 7e-12 arcsec instead of 1e-9 deg)"""
+    from pymeeus.Angle import Angle
+    rng = random.Random("sexaties/%s/%s" % (seed, shard))
+    for _ in range(n):
+        nd = rng.choice([0, 0, 1, 2, 3, 4, 6])
+        ra = rng.randrange(2)
+        mi = rng.choice([0, 0, rng.randrange(60)])
+        k = rng.choice([0, 0, 12, 29, 58, 59, rng.randrange(60)])
+        j = rng.randrange(10 ** min(nd, 3)) if nd else 0
+        tie = Fraction(k) + (Fraction(2 * j + 1, 2) / 10 ** nd)
+        delta = Fraction(rng.choice([15, 30, 45, 100, 1000, 10 ** 5]), 10 ** 12) * rng.choice([1, -1])
+        secs = mi * 60 + tie + delta
+        v = float(secs / 3600 * (15 if ra else 1)) * rng.choice([1, 1, -1])
+        a = Angle(v)
+        if ra and v < 0:
+            continue
+        val = a()
+        vs = (val > 0) - (val < 0)
+        for fancy in (1, 0):
+            try:
+                st = a.ra_str(bool(fancy), nd) if ra else a.dms_str(bool(fancy), nd)
+                ok, F = tokenise(st, fancy)
+            except Exception as ex:
+                st, ok, F = "raised " + type(ex).__name__, 0, [ZF, ZF, ZF]
+            yield {"k": "str", "x": val, "vs": vs, "v": fx(val), "ra": ra, "fancy": fancy, "nd": nd, "ok": ok, "F": F, "raw": st, "tight": 1}
 
 
 def gen_sexa_grid(n, degs, offs):
@@ -153,7 +183,7 @@ def gen_sexa_grid(n, degs, offs):
                             ok, F = tokenise(st, fancy)
                         except Exception as ex:
                             st, ok, F = "raised " + type(ex).__name__, 0, [ZF, ZF, ZF]
-                        yield {"k": "str", "x": val, "vs": vs, "v": fv, "ra": 0, "fancy": fancy, "nd": n, "ok": ok, "F": F, "raw": st}
+                        yield {"k": "str", "x": val, "vs": vs, "v": fv, "ra": 0, "fancy": fancy, "nd": n, "ok": ok, "F": F, "raw": st, "tight": 0}
 
 
 # ---------------------------------------------------------------------------
